@@ -16,7 +16,7 @@ import (
 	"verif/harness/sm"
 )
 
-const ruleC09 = "model-based state machine (writes incl. deletes of absent ids and failed operations) whose read steps run, on the same state and the same query object, FindAll, Count, Exists, FindFirst, ForEach (complete and with a consumer returning false at call k) and compare them with each other: Count = len, Exists iff len > 0 (limit != 0), FindFirst = first element (exact when unsorted, sort-key-equal otherwise), ForEach = the FindAll sequence under the same rule and exactly k consumer calls with no store read after the stop; FindById iff live (model). The query object (collection, criteria structure and identity, skip, limit, sort options) is digested before and after all calls and after calling every builder method on it, and the raw store dump before and after the reads must be identical. An evaluation is one derived-call comparison; non-trivial when the query has criteria or a window and a non-empty result, or an early stop with 0 < k < len; distinct = distinct (query, collection contents)."
+const ruleC09 = "model-based state machine (writes incl. deletes of absent ids and failed operations) whose read steps run, on the same state and the same query object, FindAll, Count, Exists, FindFirst, ForEach (complete and with a consumer returning false at call k) and compare them with each other: Count = len, Exists iff len > 0 (limit != 0), FindFirst = the first element of FindAll (the same document, also among ties), ForEach = exactly the FindAll sequence and exactly k consumer calls with no store read after the stop; FindById iff live (model). The query object (collection, criteria structure and identity, skip, limit, sort options) is digested before and after all calls and after calling every builder method on it, and the raw store dump before and after the reads must be identical. An evaluation is one derived-call comparison; non-trivial when the query has criteria or a window and a non-empty result, or an early stop with 0 < k < len; distinct = distinct (query, collection contents)."
 
 func c09Profile() *sm.Profile {
 	return &sm.Profile{
@@ -98,11 +98,11 @@ func derivedHook(s *sm.Session, op *cs.Op, _ *cs.Outcome) *sm.Fail {
 	_, limit := model.Window(op.Q)
 	opts := model.NormSort(op.Q)
 	allDocs := run.FromDocuments(all)
+	// the property states identity with FindAll on the same state ("the first element of
+	// FindAll(q)", "exactly the FindAll(q) sequence"), also among documents with equal sort keys
+	_ = opts
 	sameDoc := func(a, b cs.Doc) bool {
-		if len(opts) == 0 {
-			return cs.StrictEqual(map[string]interface{}(a), map[string]interface{}(b))
-		}
-		return model.KeyCmp(a, b, opts, false) == 0 || model.KeyCmp(a, b, opts, true) == 0
+		return cs.StrictEqual(map[string]interface{}(a), map[string]interface{}(b))
 	}
 	if cnt != len(all) {
 		return bad("count", "Count = %d but FindAll returns %d documents", cnt, len(all))
